@@ -3,6 +3,7 @@ CONSTANTS
   AckMode = "shaped"
   ThrMode = "fixed"
   EmptyMode = "fixed"
+  RstMode = "pinned"
   CfgSet <- TinyCfg
   SameCfg = TRUE
   Openers = {"A"}
